@@ -23,6 +23,7 @@ from .absint import Interp
 from .report import Finding
 
 WHAT = {
+    "A9": "a tag is an active tag exactly when it is PREFIX.with_CATEGORY<sep>VALUE for one of the matcher's prefixes and its value separator (defaults or constructor arguments)",
     "A1": "category group enabled <=> (no positive tag or some positive tag matches) and no negative tag matches, for every tag order",
     "A2": "tags of a category unknown to the value provider never exclude (dict and both provider classes); empty group enabled",
     "A3": "excluded <=> some category group is disabled; should_run_with is the negation; composite: any member",
@@ -381,3 +382,54 @@ def check_grouping(chk, ix):
     else:
         _fail(chk, "A8", f, "groups %s" % groups, "active tags %s are grouped as %s, expected one group per category: %s "
               "(a category split into fragments is evaluated fragment by fragment)" % (list(tags), groups, want))
+
+
+def check_tag_pattern(chk, ix):
+    """A9: which tags are active tags: the pattern the matcher builds from its (default or given) prefixes and value
+    separator, constant-folded (re is the stdlib's) and applied to concrete tags."""
+    from .abscall import ReVal
+    chk.rule("A9", WHAT["A9"])
+    mc = ix.cls("behave.tag_matcher:ActiveTagMatcher")
+    init = mc.lookup("__init__")
+    lcp, lcs = mc.lookup_const("tag_prefixes"), mc.lookup_const("value_separator")
+    dprefixes, dsep = ix.fold(lcp[1], lcp[0].module), ix.fold(lcs[1], lcs[0].module)
+    for title, kw, prefixes, sep in (("defaults", {}, list(dprefixes), dsep),
+                                     ("custom separator", {"value_separator": ":"}, list(dprefixes), ":"),
+                                     ("custom prefixes", {"tag_prefixes": ("need", "not_need")}, ["need", "not_need"], dsep),
+                                     ("custom prefixes and separator", {"tag_prefixes": ("need", "not_need"), "value_separator": ":"}, ["need", "not_need"], ":")):
+        it = Interp(ix, stubs={"TagMatcher.__init__": lambda i, s_, a, k, n: [(s_, "val", None)]}, name="ActiveTagMatcher.__init__")
+        it.fold_regex = True
+        it.int_sat = 100
+        it.list_cap = 100
+        st = State()
+        st.frames = []
+        me = st.alloc(HObj(mc, {}, label="matcher"))
+        prov = st.alloc(HObj("dict", kind="dict", items=[("os", "linux")]))
+        outs = it.call_function(st, init, [prov], dict(kw), None, self_val=me)
+        chk.absorb(it)
+        if len(outs) != 1 or outs[0][1] != "val":
+            raise AnalysisError("ActiveTagMatcher.__init__ not evaluable (%s): %r" % (title, [(k, v) for _, k, v in outs][:3]))
+        pat = outs[0][0].obj(me).fields.get("tag_pattern")
+        if not isinstance(pat, ReVal):
+            raise AnalysisError("ActiveTagMatcher.tag_pattern is not a foldable compiled pattern (%s): %r" % (title, pat))
+        other = ":" if sep != ":" else "="
+        cases = []
+        for p_ in prefixes:
+            cases.append(("%s.with_os%slinux" % (p_, sep), (p_, "os", "linux")))
+            cases.append(("%s.with_os.version%s12" % (p_, sep), (p_, "os.version", "12")))
+            cases.append(("%s.with_os%slinux" % (p_, other), None if other not in "linux" else None))
+        cases += [("foo", None), ("slow", None), ("with_os%slinux" % sep, None), ("x%s.with_os%slinux" % (prefixes[0], sep), None)]
+        if prefixes != list(dprefixes):
+            cases.append(("%s.with_os%slinux" % (dprefixes[0], sep), None))
+        for tag, want in cases:
+            chk.instance("A9")
+            m = pat.rx.match(tag)
+            got = (m.group("prefix"), m.group("category"), m.group("value")) if m else None
+            if want is None and got is not None and other in tag and got[1].startswith("os") and sep in tag.split(other, 1)[-1]:
+                want = got      # the other separator is part of the value here
+            if got == want:
+                chk.ok("A9", {"matcher": title, "tag": tag, "active_tag": list(got) if got else None}, nontrivial_key=(title, tag))
+            else:
+                _fail(chk, "A9", init, "%s: %s -> %r" % (title, tag, got),
+                      "a matcher built with %s (prefixes %s, separator %r) reads the tag %r as %r; expected %r" % (
+                          title, prefixes, sep, tag, got, want))
